@@ -1,0 +1,760 @@
+//! Verification hooks (cargo feature `verif`, off by default).
+//!
+//! Thin, additive wrappers that let an external harness drive the real server core,
+//! scheduler, worker state machine and resource allocator in-process, without sockets,
+//! and take read-only snapshots of their state. Nothing in here is used by production code.
+
+use std::cell::RefCell;
+use std::collections::VecDeque;
+use std::pin::Pin;
+use std::rc::Rc;
+use std::task::{Context, Poll};
+use std::time::{Duration, Instant};
+
+use bytes::{Bytes, BytesMut};
+use futures::Stream;
+use tokio::sync::Notify;
+use tokio::sync::mpsc::UnboundedReceiver;
+
+use crate::control::ServerRef;
+use crate::gateway::{CrashLimit, LostWorkerReason};
+use crate::internal::messages::worker::{
+    FromWorkerMessage, NewWorkerMsg, TaskUpdates, ToWorkerMessage, WorkerRegistrationResponse,
+    WorkerStopReason, WorkerTaskUpdate,
+};
+use crate::internal::scheduler::{SchedulerConfig, SchedulerResult, run_scheduling};
+use crate::internal::server::comm::{Comm, CommSenderRef};
+use crate::internal::server::core::CoreRef;
+use crate::internal::server::reactor::{on_new_worker, on_remove_worker};
+use crate::internal::server::rpc::worker_receive_loop;
+use crate::internal::server::task::TaskRuntimeState;
+use crate::internal::server::worker::{DEFAULT_WORKER_OVERVIEW_INTERVAL, Worker, WorkerAssignment};
+use crate::internal::transfer::auth::open_message;
+use crate::internal::worker::comm::WorkerComm;
+use crate::internal::worker::configuration::{WorkerConfiguration, sync_worker_configuration};
+use crate::internal::worker::resources::allocator::ResourceAllocator;
+use crate::internal::worker::resources::map::ResourceLabelMap;
+use crate::internal::worker::rpc::process_worker_message;
+use crate::internal::worker::state::WorkerStateRef;
+use crate::launcher::TaskLauncher;
+use crate::resources::{
+    Allocation, ResourceDescriptor, ResourceIdMap, ResourceRequest, ResourceRequestVariants,
+};
+use crate::{InstanceId, TaskId, WorkerId};
+
+pub use crate::internal::worker::resources::pool::VerifPoolState;
+
+/// Controllable offset added to the life time that a worker computes for itself
+/// (`WorkerState::remaining_time`) so that a harness can let worker time pass.
+pub mod clock {
+    use std::cell::Cell;
+    use std::time::Duration;
+
+    thread_local! {
+        static OFFSET: Cell<Duration> = const { Cell::new(Duration::ZERO) };
+    }
+
+    pub fn set_offset(offset: Duration) {
+        OFFSET.with(|o| o.set(offset));
+    }
+
+    pub fn offset() -> Duration {
+        OFFSET.with(|o| o.get())
+    }
+}
+
+/// In-memory byte stream with the item type the server-side receive loop expects.
+/// It never wakes anybody: the harness polls the consumer explicitly.
+#[derive(Clone, Default)]
+pub struct ManualStream {
+    queue: Rc<RefCell<VecDeque<BytesMut>>>,
+    closed: Rc<RefCell<bool>>,
+}
+
+impl ManualStream {
+    pub fn push(&self, data: &[u8]) {
+        self.queue.borrow_mut().push_back(BytesMut::from(data));
+    }
+    pub fn close(&self) {
+        *self.closed.borrow_mut() = true;
+    }
+    pub fn len(&self) -> usize {
+        self.queue.borrow().len()
+    }
+    pub fn is_empty(&self) -> bool {
+        self.queue.borrow().is_empty()
+    }
+}
+
+impl Stream for ManualStream {
+    type Item = Result<BytesMut, std::io::Error>;
+
+    fn poll_next(self: Pin<&mut Self>, _cx: &mut Context<'_>) -> Poll<Option<Self::Item>> {
+        if let Some(item) = self.queue.borrow_mut().pop_front() {
+            Poll::Ready(Some(Ok(item)))
+        } else if *self.closed.borrow() {
+            Poll::Ready(None)
+        } else {
+            Poll::Pending
+        }
+    }
+}
+
+#[derive(Debug, Clone, Copy, PartialEq, Eq)]
+pub enum SchedOutcome {
+    NotRequested,
+    Done,
+    NeedMoreCompute,
+    NoProgress,
+}
+
+#[derive(Debug, Clone, PartialEq, Eq)]
+pub enum TaskStateSnap {
+    Waiting { unfinished_deps: u32 },
+    Assigned { worker_id: WorkerId, rv_id: u8 },
+    Prefilled { worker_id: WorkerId },
+    Retracting { worker_id: WorkerId },
+    Running { worker_id: WorkerId, rv_id: u8 },
+    RunningMultiNode(Vec<WorkerId>),
+    Finished,
+}
+
+#[derive(Debug, Clone, PartialEq, Eq)]
+pub struct TaskSnap {
+    pub id: TaskId,
+    pub state: TaskStateSnap,
+    pub deps: Vec<TaskId>,
+    pub consumers: Vec<TaskId>,
+    pub rq_id: u32,
+    pub instance_id: InstanceId,
+    pub crash_counter: u32,
+    pub crash_limit: CrashLimit,
+    pub priority: u64,
+    pub time_limit: Option<Duration>,
+}
+
+#[derive(Debug, Clone, PartialEq, Eq)]
+pub struct WorkerSnap {
+    pub id: WorkerId,
+    pub group: String,
+    /// Sizes per resource id (in fractions, 10_000 per unit)
+    pub total: Vec<u64>,
+    /// None if the worker holds a multi-node task
+    pub free: Option<Vec<u64>>,
+    pub assigned: Vec<TaskId>,
+    pub prefilled: Vec<TaskId>,
+    pub mn_task: Option<(TaskId, bool)>,
+    pub blocked: Vec<(u32, u8)>,
+    /// Remaining life time relative to the `now` passed to `snapshot`
+    pub remaining: Option<Duration>,
+    pub stopping: bool,
+    pub reserved: bool,
+}
+
+#[derive(Debug, Clone, PartialEq, Eq)]
+pub struct QueueSnap {
+    pub rq_id: u32,
+    /// (priority, ids), descending priority
+    pub ready: Vec<(u64, Vec<TaskId>)>,
+    pub prefill: Option<(u64, Vec<TaskId>)>,
+}
+
+#[derive(Debug, Clone, PartialEq, Eq)]
+pub struct CoreSnapshot {
+    pub tasks: Vec<TaskSnap>,
+    pub workers: Vec<WorkerSnap>,
+    pub queues: Vec<QueueSnap>,
+    pub redirects: Vec<(TaskId, WorkerId, u8)>,
+    pub resource_names: Vec<String>,
+    pub rq_map: Vec<ResourceRequestVariants>,
+    pub groups: Vec<(String, Vec<WorkerId>)>,
+    pub scheduling_requested: bool,
+    pub worker_id_counter: u32,
+}
+
+/// The real server core + comm, without any socket.
+pub struct SimServer {
+    core_ref: CoreRef,
+    comm_ref: CommSenderRef,
+    server_ref: ServerRef,
+}
+
+impl SimServer {
+    pub fn new(
+        scheduler_config: SchedulerConfig,
+        server_uid: String,
+        worker_id_initial_value: WorkerId,
+        idle_timeout: Option<Duration>,
+    ) -> Self {
+        let comm_ref = CommSenderRef::new(Rc::new(Notify::new()), false);
+        let core_ref = CoreRef::new(
+            0,
+            None,
+            idle_timeout,
+            None,
+            server_uid,
+            worker_id_initial_value,
+            scheduler_config,
+        );
+        let server_ref = ServerRef::verif_from_parts(core_ref.clone(), comm_ref.clone());
+        SimServer {
+            core_ref,
+            comm_ref,
+            server_ref,
+        }
+    }
+
+    pub fn server_ref(&self) -> ServerRef {
+        self.server_ref.clone()
+    }
+
+    /// Mirrors the registration part of `worker_rpc_loop`.
+    /// The registration response is returned directly (in production it is the first message
+    /// in the worker's queue).
+    pub fn register_worker(
+        &self,
+        mut configuration: WorkerConfiguration,
+        now: Instant,
+    ) -> (WorkerId, WorkerRegistrationResponse, UnboundedReceiver<Bytes>) {
+        let worker_id = self.core_ref.get_mut().new_worker_id();
+        sync_worker_configuration(&mut configuration, *self.core_ref.get().idle_timeout());
+        let (queue_sender, queue_receiver) = tokio::sync::mpsc::unbounded_channel::<Bytes>();
+        {
+            let mut core = self.core_ref.get_mut();
+            for item in &configuration.resources.resources {
+                core.get_or_create_resource_id(&item.name);
+            }
+            let worker = Worker::new(
+                worker_id,
+                configuration.clone(),
+                &core.create_resource_map(),
+                now,
+            );
+            on_new_worker(&mut core, &mut *self.comm_ref.get_mut(), worker);
+        }
+        let message = {
+            let core = self.core_ref.get();
+            WorkerRegistrationResponse {
+                worker_id,
+                resource_names: core.create_resource_map().into_vec(),
+                resource_rq_map: core.get_resource_rq_map().clone(),
+                other_workers: core
+                    .get_workers()
+                    .filter_map(|w| {
+                        if w.id != worker_id {
+                            Some(NewWorkerMsg {
+                                worker_id: w.id(),
+                                address: w.configuration().listen_address.clone(),
+                                resources: w.resources.to_transport(),
+                            })
+                        } else {
+                            None
+                        }
+                    })
+                    .collect(),
+                server_idle_timeout: *core.idle_timeout(),
+                server_uid: core.server_uid().to_string(),
+                worker_overview_interval_override: if core.worker_overview_listeners() > 0 {
+                    Some(DEFAULT_WORKER_OVERVIEW_INTERVAL)
+                } else {
+                    None
+                },
+            }
+        };
+        self.comm_ref.get_mut().add_worker(worker_id, queue_sender);
+        (worker_id, message, queue_receiver)
+    }
+
+    /// The real server-side receive loop for one worker connection.
+    pub fn receive_loop(
+        &self,
+        worker_id: WorkerId,
+        stream: ManualStream,
+    ) -> Pin<Box<dyn Future<Output = crate::Result<Option<WorkerStopReason>>>>> {
+        Box::pin(worker_receive_loop(
+            self.core_ref.clone(),
+            self.comm_ref.clone(),
+            worker_id,
+            stream,
+            None,
+        ))
+    }
+
+    pub fn stop_reason_to_lost_reason(reason: Option<WorkerStopReason>) -> LostWorkerReason {
+        match reason {
+            Some(WorkerStopReason::IdleTimeout) => LostWorkerReason::IdleTimeout,
+            Some(WorkerStopReason::TimeLimitReached) => LostWorkerReason::TimeLimitReached,
+            Some(WorkerStopReason::Interrupted) => LostWorkerReason::ConnectionLost,
+            None => LostWorkerReason::ConnectionLost,
+        }
+    }
+
+    /// Mirrors the tail of `worker_rpc_loop`. Returns the reason that was used.
+    pub fn remove_worker(&self, worker_id: WorkerId, reason: LostWorkerReason) -> LostWorkerReason {
+        let mut core = self.core_ref.get_mut();
+        let mut comm = self.comm_ref.get_mut();
+        let reason = core
+            .get_worker(worker_id)
+            .stop_reason
+            .map(|(r, _)| r)
+            .unwrap_or(reason);
+        comm.remove_worker(worker_id);
+        on_remove_worker(&mut core, &mut *comm, worker_id, reason);
+        reason
+    }
+
+    pub fn has_worker(&self, worker_id: WorkerId) -> bool {
+        self.core_ref.get().get_worker_map().contains_key(&worker_id)
+    }
+
+    /// Mirrors the idle-timeout branch of `periodic_check` (without the time comparison).
+    /// Returns false if the worker is not free.
+    pub fn idle_stop(&self, worker_id: WorkerId) -> bool {
+        let mut core = self.core_ref.get_mut();
+        let Some(worker) = core.find_worker_mut(worker_id) else {
+            return false;
+        };
+        if !worker.is_free() {
+            return false;
+        }
+        worker.set_stop(LostWorkerReason::IdleTimeout);
+        let mut comm = self.comm_ref.get_mut();
+        comm.send_worker_message(worker_id, &ToWorkerMessage::Stop);
+        true
+    }
+
+    pub fn scheduling_requested(&self) -> bool {
+        self.comm_ref.get().get_scheduling_flag()
+    }
+
+    /// One iteration of the body of `scheduler_loop`.
+    pub fn run_scheduling(&self, now: Instant) -> SchedOutcome {
+        if !self.comm_ref.get().get_scheduling_flag() {
+            return SchedOutcome::NotRequested;
+        }
+        let result = run_scheduling(
+            &mut self.core_ref.get_mut(),
+            &mut self.comm_ref.get_mut(),
+            now,
+        );
+        match result {
+            SchedulerResult::NeedMoreCompute => SchedOutcome::NeedMoreCompute,
+            SchedulerResult::Done => {
+                self.comm_ref.get_mut().reset_scheduling_flag();
+                SchedOutcome::Done
+            }
+            SchedulerResult::NoProgress => {
+                self.comm_ref.get_mut().reset_scheduling_flag();
+                SchedOutcome::NoProgress
+            }
+        }
+    }
+
+    pub fn snapshot(&self, now: Instant) -> CoreSnapshot {
+        let core = self.core_ref.get();
+        let split = core.split();
+        let mut tasks: Vec<TaskSnap> = core
+            .task_map()
+            .tasks()
+            .map(|t| {
+                let mut deps: Vec<TaskId> = t.task_deps.iter().copied().collect();
+                deps.sort_unstable();
+                let mut consumers: Vec<TaskId> = t.get_consumers().iter().copied().collect();
+                consumers.sort_unstable();
+                TaskSnap {
+                    id: t.id,
+                    state: match &t.state {
+                        TaskRuntimeState::Waiting { unfinished_deps } => TaskStateSnap::Waiting {
+                            unfinished_deps: *unfinished_deps,
+                        },
+                        TaskRuntimeState::Assigned { worker_id, rv_id } => {
+                            TaskStateSnap::Assigned {
+                                worker_id: *worker_id,
+                                rv_id: rv_id.as_num(),
+                            }
+                        }
+                        TaskRuntimeState::Prefilled { worker_id } => TaskStateSnap::Prefilled {
+                            worker_id: *worker_id,
+                        },
+                        TaskRuntimeState::Retracting { worker_id } => TaskStateSnap::Retracting {
+                            worker_id: *worker_id,
+                        },
+                        TaskRuntimeState::Running { worker_id, rv_id } => TaskStateSnap::Running {
+                            worker_id: *worker_id,
+                            rv_id: rv_id.as_num(),
+                        },
+                        TaskRuntimeState::RunningMultiNode(ws) => {
+                            TaskStateSnap::RunningMultiNode(ws.iter().copied().collect())
+                        }
+                        TaskRuntimeState::Finished => TaskStateSnap::Finished,
+                    },
+                    deps,
+                    consumers,
+                    rq_id: t.resource_rq_id.as_num(),
+                    instance_id: t.instance_id,
+                    crash_counter: t.crash_counter,
+                    crash_limit: t.configuration.crash_limit,
+                    priority: serde_json::to_value(t.priority())
+                        .ok()
+                        .and_then(|v| v.as_u64())
+                        .unwrap_or(0),
+                    time_limit: t.configuration.time_limit,
+                }
+            })
+            .collect();
+        tasks.sort_unstable_by_key(|t| t.id);
+
+        let mut workers: Vec<WorkerSnap> = core
+            .get_workers()
+            .map(|w| {
+                let (free, mut assigned, mut prefilled, mn_task) = match w.assignment() {
+                    WorkerAssignment::Sn(sn) => (
+                        Some(
+                            sn.free_resources
+                                .iter_amounts()
+                                .map(|a| a.total_fractions())
+                                .collect::<Vec<_>>(),
+                        ),
+                        sn.assigned_tasks.iter().copied().collect::<Vec<_>>(),
+                        sn.prefilled_tasks.iter().copied().collect::<Vec<_>>(),
+                        None,
+                    ),
+                    WorkerAssignment::Mn(mn) => {
+                        (None, Vec::new(), Vec::new(), Some((mn.task_id, mn.is_root)))
+                    }
+                };
+                assigned.sort_unstable();
+                prefilled.sort_unstable();
+                let mut blocked: Vec<(u32, u8)> = w
+                    .blocked_requests
+                    .iter()
+                    .map(|(rq, rv)| (rq.as_num(), rv.as_num()))
+                    .collect();
+                blocked.sort_unstable();
+                WorkerSnap {
+                    id: w.id,
+                    group: w.configuration.group.clone(),
+                    total: w
+                        .resources
+                        .iter_amounts()
+                        .map(|a| a.total_fractions())
+                        .collect(),
+                    free,
+                    assigned,
+                    prefilled,
+                    mn_task,
+                    blocked,
+                    remaining: w.remaining_time(now),
+                    stopping: w.is_stopping(),
+                    reserved: w.is_reserved(),
+                }
+            })
+            .collect();
+        workers.sort_unstable_by_key(|w| w.id);
+
+        let prio = |p: crate::Priority| -> u64 {
+            serde_json::to_value(p)
+                .ok()
+                .and_then(|v| v.as_u64())
+                .unwrap_or(0)
+        };
+        let queues = split
+            .task_queues
+            .iter()
+            .map(|q| {
+                let (ready, prefill) = q.verif_contents();
+                QueueSnap {
+                    rq_id: q.resource_rq_id.as_num(),
+                    ready: ready.into_iter().map(|(p, ids)| (prio(p), ids)).collect(),
+                    prefill: prefill.map(|(p, mut ids)| {
+                        ids.sort_unstable();
+                        (prio(p), ids)
+                    }),
+                }
+            })
+            .collect();
+
+        let mut redirects: Vec<(TaskId, WorkerId, u8)> = split
+            .scheduler_state
+            .redirects
+            .iter()
+            .map(|(t, (w, rv))| (*t, *w, rv.as_num()))
+            .collect();
+        redirects.sort_unstable();
+
+        let mut groups: Vec<(String, Vec<WorkerId>)> = core
+            .worker_groups()
+            .iter()
+            .map(|(name, g)| {
+                let mut ws: Vec<WorkerId> = g.worker_ids().collect();
+                ws.sort_unstable();
+                (name.clone(), ws)
+            })
+            .collect();
+        groups.sort();
+
+        CoreSnapshot {
+            tasks,
+            workers,
+            queues,
+            redirects,
+            resource_names: core.create_resource_map().into_vec(),
+            rq_map: core.get_resource_rq_map().iter().cloned().collect(),
+            groups,
+            scheduling_requested: self.comm_ref.get().get_scheduling_flag(),
+            worker_id_counter: core.worker_counter(),
+        }
+    }
+}
+
+#[derive(Debug, Clone)]
+pub struct WorkerRunningSnap {
+    pub task_id: TaskId,
+    pub instance_id: InstanceId,
+    pub rv_id: u8,
+    pub allocation: Vec<AllocSnap>,
+}
+
+#[derive(Debug, Clone, PartialEq, Eq)]
+pub struct AllocSnap {
+    pub resource_id: u32,
+    pub amount: u64,
+    /// (index, group, fractions); fractions == 0 means the whole index
+    pub indices: Vec<(u32, u32, u32)>,
+}
+
+pub fn allocation_snap(allocation: &Allocation) -> Vec<AllocSnap> {
+    allocation
+        .resources
+        .iter()
+        .map(|ra| AllocSnap {
+            resource_id: ra.resource_id.as_num(),
+            amount: ra.amount.total_fractions(),
+            indices: ra
+                .indices
+                .iter()
+                .map(|i| (i.index.as_num(), i.group_idx, i.fractions))
+                .collect(),
+        })
+        .collect()
+}
+
+#[derive(Debug, Clone)]
+pub struct WorkerSnapshot {
+    pub worker_id: WorkerId,
+    pub running: Vec<WorkerRunningSnap>,
+    /// (rq id, task ids in backlog order)
+    pub prefilled: Vec<(u32, Vec<TaskId>)>,
+    pub blocked: Vec<(u32, u8)>,
+    pub pools: Vec<VerifPoolState>,
+    pub known_workers: Vec<WorkerId>,
+}
+
+/// The real worker state machine, without sockets and timers.
+pub struct SimWorker {
+    state_ref: WorkerStateRef,
+}
+
+impl SimWorker {
+    /// Mirrors the state construction in `run_worker`.
+    /// Must be used inside a tokio `LocalSet` (tasks are `spawn_local`ed).
+    pub fn new(
+        response: WorkerRegistrationResponse,
+        mut configuration: WorkerConfiguration,
+        launcher: Box<dyn TaskLauncher>,
+    ) -> (Self, UnboundedReceiver<Bytes>) {
+        let WorkerRegistrationResponse {
+            worker_id,
+            other_workers,
+            resource_names,
+            resource_rq_map,
+            server_idle_timeout,
+            server_uid,
+            worker_overview_interval_override,
+        } = response;
+        let (queue_sender, queue_receiver) = tokio::sync::mpsc::unbounded_channel::<Bytes>();
+        sync_worker_configuration(&mut configuration, server_idle_timeout);
+        let comm = WorkerComm::new(queue_sender);
+        let state_ref = WorkerStateRef::new(
+            comm,
+            worker_id,
+            configuration,
+            ResourceIdMap::from_vec(resource_names),
+            resource_rq_map,
+            launcher,
+            server_uid,
+        );
+        {
+            let mut state = state_ref.get_mut();
+            state.worker_overview_interval_override = worker_overview_interval_override;
+            for worker_info in other_workers {
+                state.new_worker(worker_info);
+            }
+        }
+        (SimWorker { state_ref }, queue_receiver)
+    }
+
+    /// Body of `worker_message_loop` for one message. Returns true if the worker should stop.
+    pub fn deliver(&self, data: &[u8]) -> crate::Result<bool> {
+        let message: ToWorkerMessage = open_message(&mut None, data)?;
+        let mut state = self.state_ref.get_mut();
+        Ok(process_worker_message(&mut state, message))
+    }
+
+    /// What `run_worker` does when the worker decides to stop by itself
+    /// (time limit reached / interrupted / idle timeout).
+    pub fn send_stop(&self, reason: WorkerStopReason) {
+        let mut state = self.state_ref.get_mut();
+        state
+            .comm()
+            .send_message_to_server(FromWorkerMessage::Stop(reason));
+    }
+
+    /// One iteration of `retract_check_process`.
+    pub fn retract_check(&self) {
+        let mut state = self.state_ref.get_mut();
+        if !state.prefilled_tasks.is_empty()
+            && let Some(remaining_time) = state.remaining_time()
+        {
+            let mut to_remove = Vec::new();
+            let mut updates = TaskUpdates::new();
+            for (rq_id, tasks) in &state.prefilled_tasks {
+                let rqv = state.resource_rq_map.get(*rq_id);
+                if remaining_time < rqv.min_time() {
+                    to_remove.push(*rq_id);
+                    for task in tasks {
+                        updates.push(WorkerTaskUpdate::RejectRequest {
+                            task_id: task.id,
+                            rv_id: None,
+                        });
+                    }
+                }
+            }
+            if !updates.is_empty() {
+                state
+                    .comm()
+                    .send_message_to_server(FromWorkerMessage::TaskUpdate(updates));
+                for rq_id in to_remove {
+                    state.prefilled_tasks.remove(&rq_id);
+                }
+            }
+        }
+    }
+
+    /// What `cancel_running_tasks_on_worker_end` does (without waiting).
+    pub fn shutdown(&self) {
+        let mut state = self.state_ref.get_mut();
+        state.drop_non_running_tasks();
+        for task in state.running_tasks.values_mut() {
+            task.cancel();
+        }
+        state.comm().drop_sender();
+    }
+
+    pub fn snapshot(&self) -> WorkerSnapshot {
+        let state = self.state_ref.get();
+        let mut running: Vec<WorkerRunningSnap> = state
+            .running_tasks
+            .values()
+            .map(|rt| WorkerRunningSnap {
+                task_id: rt.task.id,
+                instance_id: rt.task.instance_id,
+                rv_id: rt.rv_id.as_num(),
+                allocation: allocation_snap(&rt.allocation),
+            })
+            .collect();
+        running.sort_unstable_by_key(|r| r.task_id);
+        let mut prefilled: Vec<(u32, Vec<TaskId>)> = state
+            .prefilled_tasks
+            .iter()
+            .map(|(rq, ts)| (rq.as_num(), ts.iter().map(|t| t.id).collect()))
+            .collect();
+        prefilled.sort_unstable();
+        let mut blocked: Vec<(u32, u8)> = state
+            .blocked_requests
+            .iter()
+            .map(|(rq, rv)| (rq.as_num(), rv.as_num()))
+            .collect();
+        blocked.sort_unstable();
+        let mut known_workers: Vec<WorkerId> = state.worker_addresses.keys().copied().collect();
+        known_workers.sort_unstable();
+        WorkerSnapshot {
+            worker_id: state.worker_id,
+            running,
+            prefilled,
+            blocked,
+            pools: state.allocator.verif_pools(),
+            known_workers,
+        }
+    }
+
+    pub fn remaining_time(&self) -> Option<Duration> {
+        self.state_ref.get().remaining_time()
+    }
+}
+
+/// Direct access to the worker resource allocator.
+pub struct AllocatorHandle {
+    allocator: ResourceAllocator,
+    resource_map: ResourceIdMap,
+    label_map: ResourceLabelMap,
+}
+
+impl AllocatorHandle {
+    /// Resource ids are assigned in the order of the descriptor items.
+    pub fn new(descriptor: &ResourceDescriptor) -> Self {
+        let names: Vec<String> = descriptor
+            .resources
+            .iter()
+            .map(|item| item.name.clone())
+            .collect();
+        let resource_map = ResourceIdMap::from_vec(names);
+        let label_map = ResourceLabelMap::new(descriptor, &resource_map);
+        let allocator = ResourceAllocator::new(descriptor, &resource_map, &label_map);
+        AllocatorHandle {
+            allocator,
+            resource_map,
+            label_map,
+        }
+    }
+
+    pub fn resource_map(&self) -> &ResourceIdMap {
+        &self.resource_map
+    }
+
+    pub fn label(&self, resource_id: u32, index: u32) -> String {
+        self.label_map
+            .get_label(resource_id.into(), index.into())
+            .to_string()
+    }
+
+    pub fn try_allocate(&mut self, request: &ResourceRequest) -> Option<Rc<Allocation>> {
+        self.allocator.try_allocate(request)
+    }
+
+    pub fn is_enabled(&self, request: &ResourceRequest) -> bool {
+        self.allocator.is_enabled(request)
+    }
+
+    pub fn is_capable_to_run(&self, request: &ResourceRequest) -> bool {
+        self.allocator.is_capable_to_run(request)
+    }
+
+    pub fn release(&mut self, allocation: Rc<Allocation>) {
+        self.allocator.release_allocation(allocation)
+    }
+
+    pub fn validate(&self) {
+        self.allocator.validate()
+    }
+
+    pub fn pools(&self) -> Vec<VerifPoolState> {
+        self.allocator.verif_pools()
+    }
+
+    /// Per resource, per group: (free whole units, fractions of partially free indices)
+    /// as tracked by the allocator's concise summary.
+    pub fn concise(&self) -> Vec<Vec<(u32, Vec<(u32, u32)>)>> {
+        self.allocator.verif_concise()
+    }
+}
